@@ -295,6 +295,11 @@ class Interp(object):
             if name in obj.attrs:
                 return obj.attrs[name]
             raise Unsupported('exception attribute %s' % name)
+        from .values import VAttrs
+        if isinstance(obj, VAttrs):
+            if name in obj.attrs:
+                return obj.attrs[name]
+            raise Unsupported('attribute %s of a library object' % name)
         return BoundMethod(obj, name)
 
     def ex_Subscript(self, e):
